@@ -74,7 +74,7 @@ func replayC01(line string) {
 }
 
 // ---------------------------------------------------------------- building blocks
-func stMsg(sts ...*rwp.HWCState) *rwp.InboundMessage { return &rwp.InboundMessage{States: sts} }
+func stMsg(sts ...*rwp.HWCState) *rwp.InboundMessage  { return &rwp.InboundMessage{States: sts} }
 func one(m *rwp.InboundMessage) []*rwp.InboundMessage { return []*rwp.InboundMessage{m} }
 
 var boundaryU32 = []uint32{0, 1, 2, 3, 4, 7, 8, 15, 16, 31, 32, 63, 64, 84, 85, 86, 127, 128, 169, 170, 171, 254, 255, 256, 4095, 4096, 65535, 65536, 1 << 31, 1<<32 - 1}
